@@ -192,6 +192,7 @@ type World struct {
 	chans      []*chanState // channels of library code (side table keyed by channel identity)
 	chanTicket uint64
 	selWaiters []*selWaiter // tasks parked in a select, in arrival order
+	dead       bool         // the run is over: shims do nothing, parked library goroutines are being ended
 	mainParked bool         // the main goroutine is parked as a task (waiting for goroutines the library started)
 
 	// Intruder is the interfering call (set by the harness); intruding is true while it runs.
@@ -229,7 +230,12 @@ func Install(w *World) { W = w }
 // Uninstall removes the current world.
 //
 //go:norace
-func Uninstall() { W = nil }
+func Uninstall() {
+	if w := W; w != nil {
+		w.Shutdown()
+	}
+	W = nil
+}
 
 //go:norace
 func (w *World) ev(kind uint8, a, b uint32) {
@@ -278,6 +284,9 @@ func (w *World) EventsTail(n int) []Event {
 
 //go:norace
 func (w *World) violate(class, detail string) {
+	if w.dead {
+		return
+	}
 	if w.violN < len(w.viol) {
 		w.viol[w.violN] = Violation{class, detail}
 		w.violN++
@@ -452,7 +461,7 @@ func (w *World) endCall(failed bool, digest uint32) (steps int64) {
 //go:norace
 func Step(site uint32) {
 	w := W
-	if w == nil {
+	if w == nil || w.dead {
 		return
 	}
 	t := w.cur
